@@ -17,18 +17,22 @@ theorem delE_sublist (c : List SEv) (req : EventRec) (id : Bytes) (st st' : DelS
     | (cases h; done)
     | (simp only [DelOut.ok.injEq] at h; subst h; first | exact List.Sublist.refl _ | exact removeId_sublist _ _)
 
+theorem removeAt_sublist (c t : List SEv) (k : Nat) (a d : Bytes) (u : Nat) :
+    (removeAt c t k a d u).Sublist t := by
+  unfold removeAt
+  repeat' split
+  · exact removeReplaceable_sublist _ _ _ _ _
+  · exact removeParam_sublist _ _ _ _ _ _
+  · exact List.Sublist.refl _
+
 theorem delA_sublist (c : List SEv) (req : EventRec) (k : Nat) (a d : Bytes) (st st' : DelSt)
     (h : delA c req k a d st = .ok st') : st'.live.Sublist st.live := by
   unfold delA at h
-  repeat' split at h
-  all_goals first
-    | (cases h; done)
-    | (simp only [DelOut.ok.injEq] at h; subst h; dsimp only
-       repeat' split
-       all_goals first
-         | exact List.Sublist.refl _
-         | exact removeReplaceable_sublist _ _ _ _ _
-         | exact removeParam_sublist _ _ _ _ _ _)
+  split at h
+  · cases h
+  · split at h
+    · cases h
+    · simp only [DelOut.ok.injEq] at h; subst h; exact removeAt_sublist _ _ _ _ _ _
 
 theorem delTag_sublist (c : List SEv) (req : EventRec) (tag : List Bytes) (st st' : DelSt)
     (h : delTag c req tag st = .ok st') : st'.live.Sublist st.live := by
@@ -60,6 +64,26 @@ theorem preRemove_sublist (c : List SEv) (e : EventRec) : (preRemove c e).1.Subl
     | exact removeReplaceable_sublist _ _ _ _ _
     | exact removeParam_sublist _ _ _ _ _ _
 
+/-- the marker consulted for an event is the marker of its own address -/
+theorem addrMarker_eq (db : Db) (e : EventRec) :
+    delByAddr.addrMarker db e = (addrOf e).bind (delAddrGet db.delAddrs) := by
+  unfold delByAddr.addrMarker addrOf
+  by_cases h1 : isReplaceable e.kind = true
+  · simp [h1]
+  · simp only [h1, Bool.false_eq_true, if_false]
+    by_cases h2 : isParamReplaceable e.kind = true
+    · simp only [h2, if_true]
+      cases getValue e.tags KEY_D <;> simp
+    · simp [h2]
+
+theorem refusal_cases (db : Db) (e : EventRec) (r : Reply) (h : refusal db e = some r) :
+    r = .duplicate ∨ r = .deleted := by
+  unfold refusal at h
+  repeat' split at h
+  all_goals first
+    | (simp only [Option.some.injEq] at h; subst h; simp)
+    | cases h
+
 /-- the six ways `store_event` can go -/
 theorem storeEvent_cases (s : Store) (e : EventRec) :
     (∃ r, refusal s.db e = some r ∧ (∀ off, r ≠ .ok off) ∧ storeEvent s e = (r, s)) ∨
@@ -75,9 +99,7 @@ theorem storeEvent_cases (s : Store) (e : EventRec) :
     refine Or.inl ⟨r, rfl, ?_, rfl⟩
     intro off hoff
     subst hoff
-    unfold refusal at hr
-    repeat' split at hr
-    all_goals simp at hr
+    rcases refusal_cases _ _ _ hr with h | h <;> cases h
   | none =>
     dsimp only
     by_cases hp : (preRemove s.db.live e).2 = true
